@@ -118,8 +118,6 @@ class P:
     def skip_flags(self):
         while self.peek()[0] == "word" and self.peek()[1] in FLAG_WORDS:
             self.i += 1
-            if self.at("("):
-                self.skip_group()
 
     # ---- types
     def type(self):
@@ -558,7 +556,7 @@ class Module:
         self._fcache = {}
         self._gcache = {}
         self.named_types = {}
-        for m in re.finditer(r'^(%[-a-zA-Z$._0-9"]+) = type (.*)$', self.text, re.M):
+        for m in re.finditer(r'^(%"[^"]+"|%[-a-zA-Z$._0-9]+) = type (.*)$', self.text, re.M):
             self.named_types[m.group(1)] = m.group(2)
 
     def resolve(self, name):
